@@ -364,7 +364,7 @@ def build_value(world, dom, name):
         from . import heapmodel as HM
         cls = resolve_ref(world, 'pycel.excelcompiler:ExcelCompiler')
         building = getattr(dom, 'building', False)
-        obj = SObj(cls, {'cycles': dom.cycles, 'cell_map': HM.SCellMap(mutable=building), 'dep_graph': HM.SGraph(),
+        obj = SObj(cls, {'cycles': dom.cycles, 'cell_map': HM.SCellMap(mutable=building or getattr(dom, 'trimming', False)), 'dep_graph': HM.SGraph(),
                          'log': HM.Dummy(), 'evaluate': Builtin('evaluate', HM.heap_evaluate)})
         if getattr(dom, 'evaluating', None) is not None:
             obj.fields['cell_map'] = HM.SCellMap(classes=True)
@@ -635,7 +635,8 @@ class Verifier:
         from . import heapmodel as _HM
         for _n in ('cached', 'old_cached', 'same_value', 'value_is', 'succ', 'same_node', 'in_done', 'forall_nodes',
                    'reads', 'computed', 'holds_f', 'old_holds_f', 'in_map', 'cell_at', 'in_set', 'old_in_set',
-                   'has_formula', 'old_has_formula', 'same_formula', 'is_range', 'edge', 'old_edge', 'local'):
+                   'has_formula', 'old_has_formula', 'same_formula', 'is_range', 'edge', 'old_edge', 'local', 'pre_in_set',
+                   'pre_same_fields'):
             self.world.external['pyvc.heapspec.' + _n] = Builtin(_n, getattr(_HM, 'sx_' + _n))
         from . import records as _REC
         for _n, _f in _REC.SPEC_BUILTINS.items():
@@ -900,6 +901,10 @@ class Verifier:
             from . import heapmodel as HM
             pre = dict(HM.heap_of(interp.ex))
             interp.ex.heap = HM.fresh_heap(interp.ex, 'call')
+            if getattr(c, 'modifies', None) is not None:
+                for f_ in pre:
+                    if f_ not in c.modifies:
+                        interp.ex.heap[f_] = pre[f_]      # outside the callee's frame
             self.old_heaps.append(pre)
             try:
                 for e in c.ensures:
@@ -1047,6 +1052,12 @@ class Verifier:
             if any(isinstance(d_, S.Record) and getattr(d_, 'closed', False) for d_ in scen.values()):
                 self.oblige(f'{c.name}/frame:only-thread-local-state-written', 'frame', not self.frame_breaches,
                             detail='; '.join(self.frame_breaches))
+            if getattr(c, 'heap', False) and getattr(c, 'modifies', None) is not None:
+                from . import heapmodel as HM
+                cur, old0 = HM.heap_of(self.world.explorer), self.old_heaps[0]
+                same = [cur[f_] == old0[f_] for f_ in old0 if f_ not in c.modifies and f_ in cur]
+                self.oblige(f'{c.name}/frame:modifies-only-' + '+'.join(x.replace('set:', '') for x in c.modifies), 'frame',
+                            mk_bool(z3.And(*same)) if same else True)
             if outcome[0] == 'return':
                 for i, e in enumerate(c.ensures):
                     nm = f'{c.name}/post#{i}:{e.__name__}'
